@@ -368,9 +368,15 @@ def check_attr_dual(world, rec):
         return
     # group expected items by equal signature; the peer's numbers for *all* delivered rows with that
     # signature form the multiset the exposed multipliers must be drawn from (injectively)
+    # an object registered with several owners reaches the solver several times but has a single multiplier
+    # slot: which of its rows' multipliers it shows is not determined by the statement; it is judged through the
+    # identity (O-CERT) only
+    nreg = {}
+    for it in ctx.exp_cons:
+        nreg[id(it["obj"])] = nreg.get(id(it["obj"]), 0) + 1
     groups = []
     for it in ctx.exp_cons:
-        if "row" not in it:
+        if "row" not in it or nreg[id(it["obj"])] > 1:
             continue
         g = None
         for grp in groups:
@@ -383,6 +389,20 @@ def check_attr_dual(world, rec):
             groups.append(g)
         g["items"].append(it)
     worst = 0.0
+    multi = {}
+    for it in ctx.exp_cons:
+        if "row" in it and nreg[id(it["obj"])] > 1:
+            multi.setdefault(id(it["obj"]), []).append(it)
+    for oid, its in multi.items():
+        d = _acc_dual(its[0]["obj"])
+        if isinstance(d, Exception):
+            world.violation("O-ATTR", "dual-accessor-raises:" + its[0]["source"], {"label": its[0]["label"]})
+            continue
+        cands = [float(ans.row_dual[k]) for k, r in enumerate(cap.rows)
+                 if any(sig_close(r["sig"], it["sig"]) for it in its)]
+        if cands and not any(abs(float(d) - c) <= EPS_EXACT * (1 + abs(c)) for c in cands):
+            world.violation("O-ATTR", "object-registered-twice-exposes-a-number-that-is-the-multiplier-of-none-of-its-rows",
+                            {"label": its[0]["label"], "exposed": float(d), "peer": cands[:4]})
     for g in groups:
         acc = []
         bad = None
@@ -709,6 +729,9 @@ def check_cert(world, rec):
     if not real:
         world.reach["cert_const_checked"] += 1
         return
+    if ans.status != "optimal":
+        world.note("real_solver_reported_inaccurate_solution")
+        return
     # linear part at each probe
     rem = []
     for k in range(1, K + 1):
@@ -733,8 +756,33 @@ def check_cert(world, rec):
                     any_asym = True
         if any_asym:
             explained = _explained_by_asymmetric_links(cap, ans, Ms, rem, scale)
-    world.residual("O-CERT/identity" + ("(K-13)" if explained else ""), err if not explained else 0.0)
-    if err > EPS_REAL:
+    explained19 = False
+    if err > EPS_REAL and not explained:
+        # K-19 predicate: a Constraint object registered with several owners reaches the solver several times but
+        # exposes one multiplier; the remainder is then exactly sum_obj (sum of its rows' multipliers at the seam
+        # - n * exposed) * row
+        nreg = {}
+        for it in ctx.exp_cons:
+            nreg.setdefault(id(it["obj"]), []).append(it)
+        corr = [0.0] * K
+        any_multi = False
+        for oid, its in nreg.items():
+            if len(its) < 2:
+                continue
+            any_multi = True
+            exposed = float(_acc_dual(its[0]["obj"]))
+            rowsk = [k for k, r in enumerate(cap.rows) if sig_close(r["sig"], its[0]["sig"])]
+            true_total = sum(float(ans.row_dual[k]) for k in rowsk)
+            for k in range(K):
+                corr[k] += (true_total - len(its) * exposed) * its[0]["sig"][k + 1]
+        if any_multi and max(abs(rem[k] - corr[k]) for k in range(K)) / scale <= EPS_REAL:
+            explained19 = True
+    world.residual("O-CERT/identity" + ("(K-13)" if explained else "(K-19)" if explained19 else ""),
+                   err if not (explained or explained19) else 0.0)
+    if err > EPS_REAL and explained19:
+        world.violation("O-CERT", "identity-remainder-explained-by-the-single-multiplier-slot-of-a-constraint-registered-twice",
+                        {"err": err, "transport": cap.transport})
+    elif err > EPS_REAL:
         if explained:
             world.violation("O-CERT", "identity-remainder-explained-by-unexposed-symmetry-multipliers-of-asymmetric-lmi",
                             {"err": err, "transport": cap.transport})
@@ -797,6 +845,14 @@ def check_primal(world, rec):
     capL = rec.caps[-1]
     ans = capL.answer
     if ans.mode != "real":
+        return
+    if any(c.answer.status != "optimal" for c in rec.caps):
+        world.note("real_solver_reported_inaccurate_solution")   # nothing is promised beyond solver tolerance
+        return
+    if getattr(ans, "solver", None) != "CLARABEL" and capL.transport == "cvxpy":
+        # accuracy-dependent verdicts are taken on CLARABEL runs only (SCS's 1e-4 is relative to the data norms,
+        # which the templates' large redundant bounds inflate); SCS runs are judged by the exact oracles
+        world.note("accuracy_oracle_skipped_for_" + str(getattr(ans, "solver", None)))
         return
     ep = rec.ledger_snapshot
     scale = 1.0 + float(np.max(np.abs(ans.G))) + float(np.max(np.abs(ans.F)))
